@@ -107,6 +107,28 @@ func (o oneByteReader) Read(p []byte) (int, error) {
 	return o.r.Read(p[:1])
 }
 
+// dataErrReader returns the last chunk together with io.EOF (like net/http bodies of known length)
+type dataErrReader struct {
+	data string
+	pos  int
+	err  error // the error handed out together with the last bytes (io.EOF or a real one)
+}
+
+func (d *dataErrReader) Read(p []byte) (int, error) {
+	if d.pos >= len(d.data) {
+		return 0, d.err
+	}
+	n := copy(p, d.data[d.pos:])
+	if n > 7 && d.pos == 0 && len(d.data) > 10 {
+		n = 7 // first a partial chunk, then the rest together with the error
+	}
+	d.pos += n
+	if d.pos >= len(d.data) {
+		return n, d.err
+	}
+	return n, nil
+}
+
 type failingReader struct {
 	data string
 	pos  int
@@ -245,7 +267,7 @@ func genCall(r *rand.Rand) c19Call {
 	case 11, 12:
 		ct := pick(r, []string{"text/event-stream", "application/octet-stream"})
 		s := pick(r, textPool)
-		kind := pick(r, []string{"strings.Reader", "LimitReader", "oneByteReader", "bytes.Buffer", "failing"})
+		kind := pick(r, []string{"strings.Reader", "LimitReader", "oneByteReader", "bytes.Buffer", "failing", "data+EOF", "data+error"})
 		mk := func() io.Reader {
 			switch kind {
 			case "strings.Reader":
@@ -256,11 +278,15 @@ func genCall(r *rand.Rand) c19Call {
 				return oneByteReader{strings.NewReader(s)}
 			case "bytes.Buffer":
 				return bytes.NewBufferString(s)
+			case "data+EOF":
+				return &dataErrReader{data: s, err: io.EOF}
+			case "data+error":
+				return &dataErrReader{data: s, err: errors.New("connection reset")}
 			}
 			return &failingReader{data: s}
 		}
 		call := c19Call{Desc: fmt.Sprintf("Stream(%d, %q, %s of %q)", status, ct, kind, s), Do: func(c *rux.Context) error { c.Stream(status, ct, mk()); return nil }, Status: want, CT: ct, Check: bodyIs(s)}
-		if kind == "failing" {
+		if kind == "failing" || (kind == "data+error" && s != "") {
 			call.MustFail = true
 			call.Check = bodyIs(s) // what was read before the failure is still delivered
 		}
@@ -477,6 +503,9 @@ func runC19(e *Env) {
 				t.AutoSample()
 			}
 			router := rux.New()
+			if chance(r, 1, 3) {
+				router.OnError = func(c *rux.Context) {} // a hook that only logs
+			}
 			var retErr error
 			var ctxErrs int
 			router.GET("/x", func(c *rux.Context) {
@@ -504,6 +533,12 @@ func runC19(e *Env) {
 				}
 				if !reported {
 					t.Fail("encoding-failure-not-reported", "%s: the value cannot be encoded, but neither the context's error list nor the returned error reports it (body %q)", call.Desc, truncate(rec.Body.String(), 120))
+					return
+				}
+				// a helper that was given a status and failed before writing anything still owes the
+				// client that status (helpers that encode through c.Errors: JSON, JSONP, XML, Stream)
+				if call.Status != 0 && !call.FailReturn && rec.Body.Len() == 0 && (rec.Status() != call.Status || rec.NumWH() != 1) {
+					t.Fail("status-lost-after-encoding-failure", "%s: nothing was written; expected exactly one WriteHeader(%d); the writer saw: %s", call.Desc, call.Status, rec.CallLog())
 					return
 				}
 				if call.Check == nil {
